@@ -143,6 +143,8 @@ type Harness struct {
 	// (id, incarnation, value, stack) instead of the test process dying: the harness decides
 	// what the crash of that simulated process means.
 	OnPanic func(c *Ctx, id, inc int, p any, stack string)
+	// StartStallDen: see simrt.Config.StartStallDen (0 = goroutines of the code under test are never held back at their start).
+	StartStallDen int
 }
 
 // RunResult of one execution.
@@ -184,7 +186,7 @@ func Execute(t *testing.T, h *Harness, tape *simrt.Tape, trace bool) (rr RunResu
 			if h.WarpTo2026 {
 				time.Sleep(time.Date(2026, 1, 1, 0, 0, 0, 0, time.UTC).Sub(time.Now()))
 			}
-			cfg := simrt.Config{Tape: tape, MaxSteps: h.MaxSteps, MaxSim: h.MaxSim, IdleLimit: h.IdleLimit, FixedStrategy: h.Enumerable}
+			cfg := simrt.Config{Tape: tape, MaxSteps: h.MaxSteps, MaxSim: h.MaxSim, IdleLimit: h.IdleLimit, FixedStrategy: h.Enumerable, StartStallDen: h.StartStallDen}
 			if trace {
 				cfg.Trace = func(s string) { c.log = append(c.log, s) }
 			}
